@@ -66,6 +66,9 @@ class Pair:
     def matcher(self, inc, exc):
         return self.enc.matcher(inc, exc)
 
+    def matcher_fullmatch(self, inc, exc):
+        return self.enc.matcher_fullmatch(inc, exc)
+
     def differ(self, f1, f2, extra=()):
         """Return (verdict, witness, solver_time): sat => a name on which the formulas disagree."""
         cons = self.enc.side_constraints() + [z3.Xor(f1, f2)] + list(extra)
@@ -83,11 +86,13 @@ def _rc(r):
 
 
 def concrete_match(inc, exc, name):
+    from engine.rxsmt import wrapper_methods
+    mi, me = wrapper_methods()
     if not name:
         return False
-    if not any(_rc(r).fullmatch(name) for r in inc):
+    if not any(getattr(_rc(r), mi)(name) for r in inc):
         return False
-    return not any(_rc(r).fullmatch(name) for r in exc)
+    return not any(getattr(_rc(r), me)(name) for r in exc)
 
 
 def validate_encoder(inc, exc, N, rnd, alphabet, n=25, is_bytes=False):
